@@ -23,7 +23,11 @@ type CaseC06 struct {
 	Others  []int       `json:"others"` // number of other-PID packets before packet i (len = len(Sizes))
 	OtherB  ref.Hex     `json:"other_pkt"`
 	// Jump: at PMT packet number Jump (>= 1, one that has an adaptation field with a flags byte) the continuity
-	// counter jumps by JumpBy and the packet announces it with the discontinuity_indicator, as ISO allows
+	// counter jumps by JumpBy and the packet announces it with the discontinuity_indicator. No longer generated:
+	// the statement carries the section in "consecutive packets", and a reader that abandons a partly collected
+	// section at a continuity break (as demultiplexers do) conforms; the fields remain for old replay files.
+	// Rd: the reader ReadPMT reads from (see streamReader): 0 bytes.Reader, 1.. bufio.Readers the caller reads on from afterwards
+	Rd     int `json:"reader,omitempty"`
 	Jump   int `json:"cc_jump_at,omitempty"`
 	JumpBy int `json:"cc_jump_by,omitempty"`
 }
@@ -37,9 +41,9 @@ func genC06(t *rapid.T) CaseC06 {
 		c.PID = 0x64
 	}
 	c.CC = rapid.IntRange(0, 15).Draw(t, "cc")
-	if rapid.IntRange(0, 3).Draw(t, "cc-jump") == 0 {
-		c.Jump = rapid.IntRange(1, 3).Draw(t, "cc-jump-at")
-		c.JumpBy = rapid.IntRange(2, 15).Draw(t, "cc-jump-by")
+	if sec := c.PMT.Section(); len(sec) <= 116 && rapid.IntRange(0, 7).Draw(t, "packet-lookalike") == 0 {
+		// a payload that is as long as a transport packet and starts like one: pointer_field 0x47, 188 bytes in all
+		c.Carrier = ref.Carrier{Pointer: 0x47, Trailing: 116 - len(sec)}
 	}
 	payload := c.Carrier.Payload(c.PMT.Section())
 	// no packet boundary exactly at the start of a section that follows complete sections
@@ -58,6 +62,9 @@ func genC06(t *rapid.T) CaseC06 {
 		}
 	}
 	c.OtherB = genOtherPacket(t, c.PID)
+	if rapid.IntRange(0, 2).Draw(t, "buffered-reader") == 0 {
+		c.Rd = rapid.IntRange(1, 4).Draw(t, "buffered-reader-size")
+	}
 	return c
 }
 
@@ -225,12 +232,21 @@ func checkC06(c CaseC06, x *hx.Ctx) *hx.Failure {
 	// (asserted for streams in which the first packet of the PMT PID reaches at least the first byte of a section)
 	if len(m.Streams) > 0 && len(c.Sizes) > 0 && c.Sizes[0] > c.Carrier.Pointer+1 {
 		stream := c06Stream(c, pkts)
-		got, err := psi.ReadPMT(bytes.NewReader(stream), c.PID)
+		r := streamReader(c.Rd, stream, c.OtherB)
+		got, err := psi.ReadPMT(r, c.PID)
 		if err != nil {
 			return hx.Failf("readpmt-error", "ReadPMT failed on a well-formed stream: %v (packet payload sizes %v, pointer %d, %d sections before, section at [%d,%d))", err, c.Sizes, c.Carrier.Pointer, len(c.Carrier.Before), secStart, secEnd)
 		}
 		if f := c06CompareStreams("ReadPMT(stream)", got, m); f != nil {
 			return f
+		}
+		if c.Rd != 0 {
+			x.Label("buffered-reader-read-on")
+			readOn(r)
+			if f := c06CompareStreams("ReadPMT(stream), after the caller read the rest of the stream from the same bufio.Reader", got, m); f != nil {
+				f.Key = "retained-" + f.Key
+				return f
+			}
 		}
 	}
 
@@ -332,7 +348,7 @@ func checkC06(c CaseC06, x *hx.Ctx) *hx.Failure {
 var propC06 = hx.Register(hx.Prop[CaseC06]{ID: "C06", Gen: genC06, Check: checkC06})
 
 func c06Rule() {
-	hx.Rec("C06").SetRule("cases: a reference-model PMT (program number, version, current_next, PCR PID, 0..3 program descriptors, 0..12 streams with distinct PIDs and 0..4 descriptors each incl. 'probe' descriptors whose body content is observable through the decoders; section_length <= 1021, sometimes exactly 1021) x a carrier (pointer_field 0..255 with 0xFF filler; values above 184 only for the payload-level API, 0..2 complete sections of other tables before, 0..200 trailing 0xFF) x a packetisation (payload sizes 1..184 per packet via adaptation-field stuffing or payload-side padding of the last packet, 0..3 other-PID packets before any packet; one case in four has a continuity_counter jump announced by the discontinuity_indicator at a continuation packet). Oracle: the model. NewPMT(payload), ReadPMT(stream): stream list (type, PID, descriptor tags, probe values), Pids, version, current_next; PmtAccumulatorDoneFunc on every prefix (payloads <= 400 bytes) or on packet boundaries, +-3 bytes around section start/end and 48 more lengths; ExtractCRC for pointer 0; header accessors = first section. Enumerated: TableHeader encode/decode identity over all 2^20 (table_id, flags, section_length 0..1023). Non-trivial: (>= 2 packets or pointer_field > 0 or a preceding section) and >= 1 stream with >= 1 descriptor.",
+	hx.Rec("C06").SetRule("cases: a reference-model PMT (program number, version, current_next, PCR PID, 0..3 program descriptors, 0..12 streams with distinct PIDs and 0..4 descriptors each incl. 'probe' descriptors whose body content is observable through the decoders; section_length <= 1021, sometimes exactly 1021) x a carrier (pointer_field 0..255 with 0xFF filler; values above 184 only for the payload-level API, 0..2 complete sections of other tables before, 0..200 trailing 0xFF) x a packetisation (payload sizes 1..184 per packet via adaptation-field stuffing or payload-side padding of the last packet, 0..3 other-PID packets before any packet, one time in three carrying a complete PAT section that lists other PIDs, the PMT PID or nothing); one small PMT in eight travels in a payload of exactly 188 bytes behind pointer_field 0x47; one stream in three is read through a bufio.Reader (16..4096 bytes) that the caller reads on from afterwards, and the decoded table is compared again. Oracle: the model. NewPMT(payload), ReadPMT(stream): stream list (type, PID, descriptor tags, probe values), Pids, version, current_next; PmtAccumulatorDoneFunc on every prefix (payloads <= 400 bytes) or on packet boundaries, +-3 bytes around section start/end and 48 more lengths; ExtractCRC for pointer 0; header accessors = first section. Enumerated: TableHeader encode/decode identity over all 2^20 (table_id, flags, section_length 0..1023). Non-trivial: (>= 2 packets or pointer_field > 0 or a preceding section) and >= 1 stream with >= 1 descriptor.",
 		"prefixes ending exactly at an inner section boundary are not asserted for the completion predicate (both clauses of the statement apply there)",
 		"ReadPMT is asserted for PMTs with >= 1 stream, streams whose first PMT-PID packet is the unit start, and packetisations without a packet boundary exactly at the start of a section that follows complete sections (ISO requires a new unit start there)",
 		"exactly one table_id 0x02 section per payload ('other complete sections before it' is read as sections of other tables: with two program map sections in one payload the statement does not say which one is meant); distinct elementary PIDs")
